@@ -600,7 +600,7 @@ def run(ctx: Ctx) -> None:
     ctx.rule("R04.2", "lifting of overlap / containment to multi-part locations", floor=6)
     ctx.rule("R04.3", "ring-end idiom for exclusive ends reduced modulo the ring length", floor=3)
     ctx.rule("R04.4", "affine forms of shifting and extending", floor=5)
-    ctx.rule("R04.5", "distance 0 under overlap; ring distance <= linear; wrap iff circular", floor=4)
+    ctx.rule("R04.5", "distance 0 under overlap; ring distance <= linear; wrap iff circular", floor=3)
     ctx.rule("R04.6", "covering spans use order-independent extremes", floor=10)
     ctx.rule("R04.7", "distance is measured between closest parts, per-pair gap decided on line and ring", floor=3)
     r04_1(ctx)
